@@ -89,6 +89,8 @@ func (w *WorkerPool) Submit(workerFunc func(), optStackTrace ...string) {
 		return
 	}
 
+	verifHookSubmit(w)
+
 	w.increasePendingTasks()
 
 	w.Queue.Push(newTask(workerFunc, w.decreasePendingTasks, lo.First(optStackTrace)))
